@@ -40,7 +40,9 @@ CHECKS = {
              "present in the input is a violation; every emitted module is parsed and imported, every model must be complete, __all__ must equal what __init__ binds "
              "and the reported file list must equal the files on disk; every files_to_include entry (non-Python files included) must arrive under its own name with its "
              "own bytes; a second generation after editing an included file must refresh the copy. The three pruning flag combinations, custom module names and "
-             "custom operations rotate over the cases.",
+             "custom operations rotate over the cases; six sets of user-chosen names (package, path, client, modules: letters next to digits, capitals, names ending in p/y, a package named like one of its "
+             "modules), a hand-written base client whose class sits inside a block, and all comment modes rotate as well. The harness's own corpus of order-dependent shapes is run in "
+             "written, reversed and shuffled definition order; a quarter of the cases are preceded by decoy generations in the same interpreter.",
         note=GEN_NOTE, design="4/C04"),
     "C05": dict(
         category="exploration",
@@ -67,7 +69,10 @@ CHECKS = {
              "Tokens include falsy-but-present values; a quarter of the cases rename one scalar to Upload so that the other scalars travel on the multipart route; the "
              "traced OpenTelemetry client is driven where the rotation says so. Every second case adds probe operations that pass every custom scalar as a required "
              "variable and inside an input object on the HTTP and websocket routes; a fifth enables the operation builder. The two listed serialize findings are matched "
-             "against an exact model of their behaviour.",
+             "against an exact model of their behaviour. Where the builder is on, a root field taking every configured scalar as required and as optional argument is called through "
+             "the generated builder method with truthy, falsy, optional and None arguments (call log, sent values and the document's argument list compared). Same-type cases "
+             "alternate between serialize-only, parse-only and one shared class that is called like one of the scalars; a third of the cases are preceded by decoy generations "
+             "in the same interpreter.",
         note=GEN_NOTE, design="4/C07"),
     "C08": dict(
         category="exploration",
@@ -83,15 +88,18 @@ CHECKS = {
         text="Four packages per seeded case (include_all_inputs x include_all_enums) are generated and imported; the class sets of input_types.py / enums.py must equal "
              "an independently computed closure (inputs through variables transitively; enums through variables, retained inputs, result fields at positions whose type "
              "conditions can apply, fragments), each retained "
-             "class must be textually identical to its unpruned counterpart, and identical calls must send identical requests and return identical values in all four.",
+             "class must be textually identical to its unpruned counterpart, and identical calls must send identical requests and return identical values in all four. In half of the cases every pruned package is written over an "
+             "older generation made with the opposite flags.",
         note=GEN_NOTE, design="4/C09"),
     "C10": dict(
         category="exploration",
-        technique="runtime monitoring: differential observation of real generator subprocesses under varied PYTHONHASHSEED, file creation orders/mtimes and pre-existing target; sha256 comparison of every produced file",
+        technique="runtime monitoring: differential observation of real generator subprocesses under varied PYTHONHASHSEED, file creation orders/mtimes, pre-existing target and process history (several generations in one interpreter); sha256 comparison of every produced file",
         text="The same inputs are generated by real `python -m ariadne_codegen` subprocesses under 5 (thorough: 13) hash seeds, as directories whose files are created in three "
              "shuffled orders (a seeded shuffle of Path.glob / os.scandir / os.listdir stands for another file system), and over an existing generation; every produced file "
              "must be byte-identical within each factor group. Both strategies, the plugin sets that collect names in sets, custom scalar types imported from the target "
-             "package / a module in the working directory / relatively, and overlapping-interface inputs are covered.",
+             "package / a module in the working directory / relatively, and overlapping-interface inputs are covered. For three quarters of the cases (thorough: all) one more "
+             "interpreter first generates decoy projects (other inputs under the same relative file names and configuration; the same inputs under a minimal configuration) and then the "
+             "project itself twice from one loaded configuration object, as files and as directories: both trees must equal the ones a fresh interpreter produced.",
         note="Trusted: sha256. Hash seeds and creation orders are sampled, not enumerated; inputs are biased to the set-iteration sites named in the anchors.",
         design="4/C10"),
     "C11": dict(
@@ -128,7 +136,7 @@ CHECKS = {
         technique="runtime monitoring: builder expressions produced by reflection over the generated builder modules; captured document validated and executed by graphql-core (resolvers record received arguments), shape compared with the expression, and each expression rebuilt after unrelated operations in the same process (history-freedom as a pair of executions)",
         text="For seeded schemas generated with enable_custom_operations, 10-24 expression trees per schema (several top-level fields, sub-fields to depth 3, aliases, .on() "
              "for union/interface members, arguments incl. explicit None) are built from the generated field objects; each captured document must validate against the "
-             "schema, have the expression's shape and GraphQL names, deliver the caller's argument values to the reference resolvers, omit None arguments, and be "
+             "schema (argument values include falsy ones; a returned type or union member without builder class is reported), have the expression's shape and GraphQL names, deliver the caller's argument values to the reference resolvers, omit None arguments, and be "
              "identical when rebuilt after the other expressions were built and sent.",
         note=GEN_NOTE + " The three listed defect mechanisms are switched on one at a time in separate cases so that the clean region is explored densely.",
         design="4/C14"),
@@ -138,7 +146,8 @@ CHECKS = {
         text="For seeded inputs the unplugged package and packages for subsets/orders of the four bundled plugins, an identity plugin and two marker plugins are generated "
              "(one fork per generation), loaded and driven with identical calls against the reference server. Requests and acceptance must be the same; ShorterResults must "
              "return exactly the single top-level field (unchanged when several); ExtractOperations constants must be the operation strings; ClientForwardRefs must keep every "
-             "evaluated annotation; NoReimports must only empty __init__; the identity plugin must change no byte; markers must appear in configuration order on every hook.",
+             "evaluated annotation; NoReimports must only empty __init__; the identity plugin must change no byte; markers must appear in configuration order on every hook. ExtractOperations is also run with its own "
+             "module-name option; the harness's corpus of order-dependent shapes (root-type fragments shared by several operations, fragments used in part) is run in every definition order.",
         note=GEN_NOTE + " Plugin lists are rotated over cases (all 15 subsets, both orders of each pair, reversed full list).",
         design="4/C15"),
     "C16": dict(
@@ -149,7 +158,7 @@ CHECKS = {
              "structural fact (kinds, interfaces, fields, args, defaults, descriptions, deprecations, enum values, union members, directive locations/repeatability, roots). "
              "A quarter of the cases edit the schema slightly and generate again onto the existing target (must equal a fresh generation); a seventh take the schema "
              "through an in-process introspection endpoint (everything the tool's introspection query can carry must be reproduced; what it cannot carry is one listed finding). "
-             "The repository's own example schemas are fixed cases.",
+             "The repository's own example schemas are fixed cases; target names with mixed-case extensions must be written in the format the extension promises.",
         note="Trusted: graphql-core build_schema / print_schema as the reference reading of SDL.",
         design="4/C16"),
     "C17": dict(
@@ -159,7 +168,7 @@ CHECKS = {
              "one or more invalid operations per specified validation rule (all confirmed invalid by graphql-core in the harness first) are run through the real CLI for both "
              "strategies with the target absent / empty / holding a previous generation / holding user files. The exception must be the corresponding CodeGenException naming "
              "the item, and the audit hook must see no create/write/mkdir/remove under the target. Valid configurations (unknown keys at every level, deprecated section, literal dollar "
-             "signs in headers, ...) must be accepted and reading settings must not mutate the configuration. The listed invalid-schema finding is matched against a "
+             "signs in headers, six sets of user-chosen names, packages named like their own modules, a base client class defined inside a block, nested package paths, mixed-case targets) must be accepted and reading settings must not mutate the configuration. Every multi-definition invalid document is also run spread over a queries directory (one definition per file, nested folders, all extensions). The listed invalid-schema finding is matched against a "
              "committed per-schema catalogue of the unchanged outcomes: any other outcome for the same schema is reported.",
         note="Trusted: audit hooks see every Python-level file-system mutation; graphql-core decides validity. The catalogue is finite and enumerated completely; it is not a proof over all invalid inputs.",
         design="4/C17"),
@@ -172,7 +181,7 @@ CHECKS = {
              "real generation from schemas using one dirty name class at a time; the package is loaded and driven so the wire name is observed. C: colliding pairs are "
              "placed in each scope kind: generation must fail or both names must stay usable; single names that meet a method local, keyword or attribute only after "
              "the mapping are placed next to an unrelated partner in five scopes (enum values also as input defaults): wire name kept, value delivered. The listed pair "
-             "findings are keyed by scope and symptom.",
+             "findings are keyed by scope and symptom. Pairs of variables one of which is the renamed form of a method local (query / _query) must both stay usable.",
         note="Part A is exhaustive over the stated reduced alphabet and bound only; real names use a larger alphabet (case classes are represented by a/b/A/B).",
         design="4/C18"),
     "C19": dict(
